@@ -53,10 +53,11 @@ RULE = ("histories of simulation.set_input on one real Variable (float/int x day
 TRUSTED = ["numpy float32 arithmetic on exactly representable dyadic values and int32 truncation are modelled by exact "
            "rationals / Z.quot in SetInput.v; covered by the correspondence only",
            "the harness's Fraction reference used to build amounts and predict binary32 exactness"]
-ASSUMPTIONS = ["conservation (sum = amount) is claimed when the equal share is representable in the variable's dtype: "
-               "always in the model's rationals for float variables (binary32 rounding is not modelled), only for "
-               "remainders divisible by the number of unknown sub-periods for int variables (the implementation "
-               "truncates the share: 10 over 12 months gives 0 everywhere)",
+ASSUMPTIONS = ["the theorems give conservation (sum = amount) when the equal share is representable in the variable's "
+               "dtype: always in the model's rationals for float variables (binary32 rounding is not modelled), only "
+               "for remainders divisible by the number of unknown sub-periods for int variables; the implementation "
+               "truncates the share otherwise (10 over 12 months gives 0 everywhere): the oracle claims conservation "
+               "there too and these cases are the OPEN known finding int-divide-truncates-share (model agrees)",
                "value equalities claimed for long periods tiled exactly by the definition period (same family, aligned "
                "start); other inputs are compared model-vs-code and for 'known values are never overwritten' only",
                "memory storage only (no disk storage), variable not neutralized, |values| < 2^17, years 1990..2040"]
@@ -304,6 +305,7 @@ def oracle(c, obs):
     rule = v["rule"]
     n = c["n"]
     before = {}
+    truncated = None      # first failure of the open finding int-divide-truncates-share (reported last)
     for i, (s, o) in enumerate(zip(c["steps"], obs)):
         status, dmp, add = o
         after = {key_of(k): vals for k, vals in dmp}
@@ -363,6 +365,15 @@ def oracle(c, obs):
                             return f"divide-unequal: {where}: {unknown[0]} got {after[unknown[0]]}, {t} got {after[t]}"
                         if representable and not all(eq(x, y) for x, y in zip(after[t], share)):
                             return f"divide-share: {where}: sub-period {t} received {after[t]} instead of {share}"
+                    if not representable and truncated is None:
+                        # int variable, remainder not divisible: the property still promises the amount back
+                        tot = [sum((after[t][e] for t in T), F(0)) for e in range(n)]
+                        if tot != A or (add is not None and add != A):
+                            truncated = (f"int-share-truncated: {where}: int variable, {k} sub-periods to fill with "
+                                         f"{[A[e] - ksum[e] for e in range(n)]}: each received {after[unknown[0]]} "
+                                         f"instead of {share}; the sub-periods sum to {tot}"
+                                         + (f", calculate_add returned {add}" if add is not None else "")
+                                         + f", amount was {A}")
                     if representable:
                         tot = [sum((after[t][e] for t in T), F(0)) for e in range(n)]
                         if not all(eq(x, y) for x, y in zip(tot, A)):
@@ -378,6 +389,29 @@ def oracle(c, obs):
                     return f"calculate-add-failed: {where}: {add.kind} {add.msg}"
                 if add != [a * len(T) for a in A]:
                     return f"calculate-add: {where}: calculate_add returned {add}, expected {len(T)} x {A}"
+        before = after
+    return truncated
+
+
+def known(c, obs, msg):
+    """Signature of the open finding: int variable under the divide rule whose remainder (amount minus
+    the known values) is not divisible by the number of unknown sub-periods, and no other failure."""
+    if not msg or not msg.startswith("int-share-truncated:") or isinstance(obs, Err):
+        return None
+    v = c["var"]
+    if v["vt"] != "int" or v["rule"] != "div":
+        return None
+    before = {}
+    for s, o in zip(c["steps"], obs):
+        after = {key_of(k): vals for k, vals in o[1]}
+        if claimed(c, s) and not isinstance(o[0], Err):
+            T = spec_tiles(v["def"], s["p"])
+            unknown = [t for t in T if t not in before]
+            if unknown:
+                A = [frac(x) for x in s["vals"]]
+                rem = [A[e] - sum((before[t][e] for t in T if t in before), F(0)) for e in range(c["n"])]
+                if any((r / len(unknown)).denominator != 1 for r in rem):
+                    return "int-divide-truncates-share"
         before = after
     return None
 
